@@ -80,7 +80,7 @@ def plan(tier):
     cat = _get_catalogue(tier)
     ntasks = len(cat["tasks"])
     req = ["roundtrip:Mps", "roundtrip:MpDm", "roundtrip:Mpo", "roundtrip:TTNS", "complex", "qn-one", "qn-two",
-           "spill", "enum:python", "gen:2", "history:ioerror-swallowed", "pos:inside-dump", "control", "long-chain"]
+           "spill", "enum:python", "gen:2", "history:ioerror-swallowed", "pos:inside-dump", "control", "long-chain", "spill:accessor-walk"]
     if cat["strace_available"] and "strace" in cat["enumerators"]:
         req.append("enum:strace")
     # a further generation exists only if the previous one left a directory state not seen before (restart closure)
@@ -855,6 +855,41 @@ def spill_body(ctx, tmp):
         del a, b, s, c
         gc.collect()
         return res, facts
+    # ---- the accessor itself: random reads / writes through every equivalent index form against a shadow list ----------
+    def accessor_walk():
+        y = a0.copy()
+        y.compress_config = _fixed(10 ** 6)
+        y.compress_config.dump_matrix_size = 1
+        y.compress_config.dump_matrix_dir = spill_dir
+        n = y.site_num
+        shadow = []
+        for k in range(n):
+            arr = np.array(y[k].array, copy=True)
+            y[k] = arr
+            shadow.append(arr.copy())
+        nbad = 0
+        for step in range(int(rng.integers(6, 20))):
+            i = int(rng.integers(0, n))
+            form = i if rng.random() < 0.5 else i - n
+            if rng.random() < 0.45:
+                new = shadow[i] * float(rng.uniform(0.5, 2.0)) + 0.01
+                y[form] = new
+                shadow[i] = np.array(new, copy=True)
+                ctx.count("spill_accessor_writes")
+            else:
+                got = np.asarray(y[form].array)
+                ctx.count("spill_accessor_reads")
+                if got.shape != shadow[i].shape or not np.array_equal(got, shadow[i]):
+                    nbad += 1
+                    ctx.violate("spill|accessor|read-does-not-return-the-tensor-stored-last", site=i, index_form=form, step=step)
+                    break
+        ctx.check(all(isinstance(t, str) for t in y._mp), "spill|accessor|tensor-kept-in-memory")
+        del y
+        gc.collect()
+    ctx.cls("spill:accessor-walk")
+    ctx.lib(accessor_walk, what="spill-accessor-walk")
+    if ctx.violations:
+        return
     mem = outcome(lambda: run(False))
     if not mem[0]:
         ctx.refuse(f"in-memory history raised {type(mem[1]).__name__}: {str(mem[1])[:80]}")
